@@ -17,8 +17,8 @@ RULE = (
     "semi-async shuffled+seed}, convergence test, gamma in (0,1), epsilon = reward scale x 10^-6..10^0.5, "
     "max_batch_size in 1..nS+3; shards run under 1, 2 or 3 emulated devices. The solver is run to convergence. "
     "Oracle: exact V* (Howard PI with linear solves, residual-checked) and exact V_pi of the returned policy "
-    "(linear solve). On reported convergence (stopped before the iteration limit; for PI also: the returned values "
-    "pass the evaluation stopping test in numpy): max(V*-V_pi) <= eps (VI span), 2 eps (VI max_diff), eps/gamma (PI "
+    "(linear solve). On reported convergence (stopped before the iteration limit; PI is given an evaluation budget that "
+    "a-priori suffices for the evaluation test to be met): max(V*-V_pi) <= eps (VI span), 2 eps (VI max_diff), eps/gamma (PI "
     "span), 2 eps/gamma (PI max_diff), 2 gamma eps/(1-gamma) (semi-async max_diff); under max_diff |values-V*| < "
     "eps (VI, semi-async), |values-V_pi| < eps/gamma (PI); every policy row is an action vector. Non-trivial = "
     "converged, nS>=2, nA>=2, >=2 sweeps; 'tight' class = observed gap >= 10% of the bound; distinct = case digest."
@@ -68,7 +68,8 @@ def strategy(tier, shard):
             cfg["shuffle"] = draw(st.booleans())
             cfg["seed"] = draw(st.integers(0, 2**31 - 1))
         if kind == "pi":
-            cfg["max_eval_iter"] = draw(st.sampled_from([1, 2, 5, 20, 100, 300, 1000]))
+            # ample evaluation budget: the bound of the stopping rule presumes that evaluation converged
+            cfg["max_eval_iter"] = 20000
             cfg["reset"] = draw(st.booleans())
         return dict(spec=spec, cfg=cfg)
 
@@ -108,11 +109,12 @@ def judge(case):
         raise ref_mdp.OracleError("V_pi exceeds V*: oracle inconsistent")
     thr = ref_mdp.threshold(eps, gamma)
     if kind == "pi" and converged:
-        # evaluation finished within its budget iff the returned values pass the evaluation stopping test
-        m = ref_mdp.measure(test, ref_mdp.policy_backup(spec, values, gamma, pidx), values)
-        if m >= thr - tol:
+        # evaluation is a gamma-contraction: its measure is below the threshold after n_needed sweeps at the latest
+        # (a-priori, independent of the solver), so with the generated budget it always finishes
+        n_needed = np.log(thr / (6 * max(scale, 1e-300))) / np.log(gamma) + 2 if thr < 6 * scale else 1
+        if n_needed > int(cfg["max_eval_iter"]):
             converged = False
-            classes.append("pi-eval-budget-exhausted")
+            classes.append("pi-eval-budget-possibly-exhausted")
     if not converged:
         classes.append("not-converged")
         return verdict_ok(nontrivial=False, classes=classes)
